@@ -972,3 +972,70 @@ def _register_families():
 
 
 _register_families()
+
+
+# ----------------------------------------------------------------------------
+# slip-plane shifts: Dislocation.__identify_shifts on symbolic layer coordinates (np.unique / np.sort replaced by their contracts, as in C14)
+
+def _identify_shifts_group(nlayers):
+    @group('shifts.identify[layers=%d]' % nlayers, files=[DINIT], functions=['Dislocation.__identify_shifts'],
+           clause='Dislocation.__identify_shifts for %d symbolic layer coordinates (strictly increasing after rounding at the tolerance, which is what the routine works on) along the slip-plane normal in a rotated cell of symbolic width (top layer coincident '
+                  'with the image of the bottom layer or not): one shift per gap between adjacent atomic planes (the gap across the periodic boundary included), sorted, along the '
+                  'normal only, each in [0, width] and each placing the slip plane exactly midway between its two planes' % nlayers, replay=_replay_generators, timeout_ms=30000)
+    def h_(E, L):
+        from .c14 import _LayerNP, _shift_contract
+        mod = L.load(DINIT)
+        D = mod.Dislocation
+        for cutindex in range(3):
+            w = E.real('w')
+            E.assume(w > 1e-6)               # the cell is much wider than the rounding tolerance
+            craw = E.reals('c', (nlayers,))
+            # the routine works on the layer coordinates ROUNDED at the tolerance (np.unique of the rounded column): the contract is stated for those
+            c = snp.asarray(_np.array(list(craw), dtype=object)).round(8)
+            E.assume(c[0] >= 0)
+            for i in range(nlayers - 1):
+                E.assume(c[i + 1] > c[i])
+            E.assume(c[nlayers - 1] <= w + 1e-8)
+            if cutindex == 0:
+                E.canary('shifts.identify.canary[%d]' % nlayers, c[0] == w)
+
+            class A(object):
+                pass
+            f = object.__new__(D)
+            rcell = A()
+            rcell.box = A()
+            rcell.atoms = A()
+            vects = _np.zeros((3, 3), dtype=object)
+            vects[cutindex, cutindex] = w
+            rcell.box.vects = snp.asarray(vects)
+            pos = _np.zeros((nlayers, 3), dtype=object)
+            for i in range(nlayers):
+                pos[i, cutindex] = craw[i]
+            rcell.atoms.pos = snp.asarray(pos)
+            f._Dislocation__rcell = rcell
+            f._Dislocation__cutindex = cutindex
+            sol = A()
+            sol.n = _np.eye(3)[cutindex]
+            f._Dislocation__dislsol = sol
+            real_np = mod.np
+            mod.np = _LayerNP()
+            try:
+                f._Dislocation__identify_shifts(1e-8)
+            finally:
+                mod.np = real_np
+            shifts = f.shifts
+            appended = shifts.shape[0] == nlayers
+            tag = 'shifts.identify[layers=%d,cut=%d,%s]' % (nlayers, cutindex, 'open' if appended else 'top_is_image_of_bottom')
+            E.prove(tag + '.shape', shifts.shape[1] == 3)
+            for k in range(shifts.shape[0]):
+                for j in range(3):
+                    if j != cutindex:
+                        E.prove(tag + '.along_normal_only[%d,%d]' % (k, j), shifts[k, j] == 0)
+            if not appended:
+                E.prove(tag + '.top_coincides_with_image', And(c[nlayers - 1] - c[0] - w <= 1e-8, c[0] + w - c[nlayers - 1] <= 1e-8))
+            _shift_contract(E, tag, c, w, [shifts[k, cutindex] for k in range(shifts.shape[0])], appended)
+    return h_
+
+
+for _n in (2, 3, 4):
+    _identify_shifts_group(_n)
